@@ -160,7 +160,10 @@ class ZorgFileCompiler(ZorgFileListener):
     def enterGlobal_link(
         self, ctx: ZorgFileParser.Global_linkContext
     ) -> None:  # noqa: D102
-        self._add_tag("links", f"global:{ctx.children[1].getText()}")
+        # NOTE: ctx.ID() is None when the parser had to recover from a syntax
+        # error inside of this link (e.g. '[#o]').
+        if (link_id := ctx.ID()) is not None:
+            self._add_tag("links", f"global:{link_id.getText()}")
 
     def enterHead(self, ctx: ZorgFileParser.HeadContext) -> None:  # noqa: D102
         del ctx
@@ -196,7 +199,9 @@ class ZorgFileCompiler(ZorgFileListener):
     def enterLocal_link(
         self, ctx: ZorgFileParser.Local_linkContext
     ) -> None:  # noqa: D102
-        local_id = ctx.children[1].getText()
+        if ctx.ID() is None:
+            return
+        local_id = ctx.ID().getText()
         # HACK: Ignore completed checklists items.
         if local_id == "X":
             return
@@ -229,7 +234,8 @@ class ZorgFileCompiler(ZorgFileListener):
     def enterRef_link(
         self, ctx: ZorgFileParser.Ref_linkContext
     ) -> None:  # noqa: D102
-        self._add_tag("links", f"ref:{ctx.children[1].getText()}")
+        if (ref_id := ctx.ID()) is not None:
+            self._add_tag("links", f"ref:{ref_id.getText()}")
 
     def enterSimple_prop(
         self, ctx: ZorgFileParser.Simple_propContext
